@@ -166,6 +166,51 @@ def threshold_edges(body):
     return out
 
 
+def id_le_self_edges(sv):
+    """Edges on which `frame.id <= self.id` holds (registration traffic that preceded this instance)."""
+    out = []
+    for bb, si in sv.switches():
+        if si["kind"] != "bool":
+            continue
+        cmp_ = q.comparison(si["cond"])
+        if not cmp_ or cmp_[0] in ("eq", "ne"):
+            continue
+        rel, l, r = cmp_
+        fl = q.last_field(l) == "id" and any(y[0] == "call" and y[1].fn == C.MPSC_RECV for y in walk(l))
+        fr = q.last_field(r) == "id" and any(y[0] == "call" and y[1].fn == C.MPSC_RECV for y in walk(r))
+        sl = q.last_field(l) == "id" and any(y[0] == "field" and y[1][0] == "env" and y[2] == "self" for y in walk(l))
+        sr = q.last_field(r) == "id" and any(y[0] == "field" and y[1][0] == "env" and y[2] == "self" for y in walk(r))
+        if fl and sr:
+            out += q.edge_triples(sv, bb, lambda m, rel=rel: q.rel_on_edge(rel, m) == "le")
+        elif fr and sl:
+            out += q.edge_triples(sv, bb, lambda m, rel=q.SWAP[rel]: q.rel_on_edge(rel, m) == "le")
+    return out
+
+
+def own_output_tests(run, sv):
+    """Switch blocks of the `meta.handler_id == self.id` filter."""
+    out = []
+    for bb, si in sv.switches():
+        if si["kind"] != "bool":
+            continue
+        cond = si["cond"]
+        if not (cond[0] == "call" and cond[1].fn.startswith("core::option::Option::<T>::is_")):
+            continue
+        if not any(y[0] == "field" and y[2] == "meta" for y in walk(cond)):
+            continue
+        keys = []
+        for y in walk(cond):
+            if y[0] == "agg" and y[1].get("agg") == "closure":
+                cb = run.facts.body(y[1]["def"])
+                if cb is not None:
+                    for c in cb.calls():
+                        if c.fn.endswith("Value::get"):
+                            keys += q.const_strs(c.arg(1))
+        if "handler_id" in keys:
+            out.append(bb)
+    return out
+
+
 def r5(run):
     sv = coroutine_of(run, HANDLER + "::serve")
     if sv is None:
@@ -175,19 +220,32 @@ def r5(run):
     ubbs = [a.call.bb for a in unreg]
     recvs = q.live_calls(sv, C.MPSC_RECV)
     pf = [c for c in sv.calls() if c.bb in sv.live_blocks() and c.fn.endswith("Handler::process_frame")]
+    skip = id_le_self_edges(sv)
     for suffix, what in ((".register", "a later `<name>.register` (replacement)"), (".unregister", "a later `<name>.unregister`")):
         edges = F.suffix_tests(sv, suffix)
-        # one occurrence of the test must lead, on every path, to the announcement before anything else happens
+        # one occurrence of the test must lead, on every path that is not the `frame.id <= self.id` skip, to the announcement
         stopping = []
         for e in edges:
-            reach = sv.reachable_blocks([e[1]], removed_blocks=ubbs)
+            reach = sv.reachable_blocks([e[1]], removed_blocks=ubbs, removed_edges=skip)
             if not any(c.bb in reach for c in recvs + pf) and not any(r in reach for r in sv.return_blocks()) and any(
                     u in sv.reachable_blocks([e[1]]) for u in ubbs):
                 stopping.append(e)
         run.ob(HANDLER + "::serve|stops-on|%s" % suffix, len(stopping) >= 1, sv.sp,
-               "%s of its own topic stops this instance: one `topic == <name>%s` test leads on every path to the `.unregistered` announcement (%d of %d test edges)" % (
-                   what, suffix, len(stopping), len(edges)), reason="old-instance-keeps-running")
-    # the tests compare against this handler's own topic
+               "%s of its own topic stops this instance: one `topic == <name>%s` test leads on every path (except the id <= self.id skip) to the `.unregistered` announcement "
+               "(%d of %d test edges)" % (what, suffix, len(stopping), len(edges)), reason="old-instance-keeps-running")
+        # a lifecycle frame can never be swallowed by the own-output filter: that filter is evaluated only after the lifecycle test failed
+        false_edges = []
+        for bb, si in sv.switches():
+            if si["kind"] == "bool":
+                for (t, lab, m) in si["edges"]:
+                    pass
+        f_edges = []
+        for e in edges:
+            f_edges += q.other_edges(sv, e[0], [e])
+        for ob in own_output_tests(run, sv):
+            run.ob(HANDLER + "::serve|lifecycle-before-own-output-filter|%s" % suffix, bool(f_edges) and q.dominated(sv, ob, via_edges=f_edges), sv.blocks[ob]["term"]["sp"],
+                   "the `meta.handler_id == self.id` filter is reached only after the `<name>%s` test failed: a (un)register frame stamped with this instance's own id still stops it" % suffix,
+                   reason="lifecycle-frame-swallowed-by-own-output-filter")
     for e in F.suffix_tests(sv, ".register")[:1]:
         si = sv.switch_info(e[0])
         run.ob(HANDLER + "::serve|stop-test-own-topic", any(y[0] == "field" and y[2] == "topic" and any(z[0] == "field" and z[1][0] == "env" and z[2] == "self" for z in walk(y)) for y in walk(si["cond"])),
